@@ -190,3 +190,6 @@ def _round8(ctx):
     from rules import arms as A
     with ctx.rule('R15.7', 'the heartbeat queued on a tx expiry is really queued while the connection is open: push_heartbeat is gated by the seal, not by its negation (shared with C08)', floor=1) as r:
         A.include(ctx, r, 'c08', 'R08.2', pick=('push_heartbeat:gated',))
+    with ctx.rule('R15.8', "the timers run at the negotiated interval and the builder's heartbeat is the option negotiated (shared with C17, C19)", floor=5) as r:
+        A.include(ctx, r, 'c17', 'R17.1', pick=('enabled', 'disabled'))
+        A.include(ctx, r, 'c19', 'R19.1', pick=('setter:heartbeat', 'setter:channel_max', 'setter:frame_max'))
